@@ -1375,6 +1375,36 @@ func (r *run) goodValue(ty string) int {
 	}
 }
 
+// fixedCallees: interfaces written with YAML forms the generator does not produce (an input declared
+// through an alias of another input's declaration; secrets of the call named with a null value;
+// a local action whose directory name holds an `@`)
+func (r *run) fixedCallees() {
+	root := filepath.Join(r.out, "scratch", "fixed")
+	calleePath := filepath.Join(root, ".github", "workflows", "callee.yml")
+	callerPath := filepath.Join(root, ".github", "workflows", "caller.yml")
+	cy := "on:\n  workflow_call:\n    inputs:\n      ver: &v\n        type: number\n        required: true\n      fallback: *v\n    secrets:\n      tok:\n        required: true\n      opt:\n        required: false\njobs:\n  j:\n    runs-on: ubuntu-latest\n    steps:\n      - run: echo\n"
+	writeFile(calleePath, cy)
+	act := "name: a\ndescription: d\ninputs:\n  must:\n    description: d\n    required: true\nruns:\n  using: composite\n  steps:\n    - run: echo\n      shell: bash\n"
+	writeFile(filepath.Join(root, ".github", "actions", "setup-tool@v2", "action.yml"), act)
+	for _, c := range []struct {
+		name, src string
+		want      []rep
+	}{
+		{"alias-declared-input/missing", "on: push\njobs:\n  c:\n    uses: ./.github/workflows/callee.yml\n    secrets: inherit\n",
+			[]rep{{clMissingInput, "ver"}, {clMissingInput, "fallback"}}},
+		{"alias-declared-input/typed", "on: push\njobs:\n  c:\n    uses: ./.github/workflows/callee.yml\n    with:\n      ver: 1\n      fallback: abc\n    secrets: inherit\n",
+			[]rep{{clTypeMismatch, "fallback"}}},
+		{"null-valued-secrets", "on: push\njobs:\n  c:\n    uses: ./.github/workflows/callee.yml\n    with:\n      ver: 1\n      fallback: 2\n    secrets:\n      tok:\n      nosuch:\n",
+			[]rep{{clUnknownSecret, "nosuch"}}},
+		{"local-action-path-with-at", "on: push\njobs:\n  j:\n    runs-on: ubuntu-latest\n    steps:\n      - uses: ./.github/actions/setup-tool@v2\n        with:\n          nosuch: x\n",
+			[]rep{{clUnknownInput, "nosuch"}, {clMissingInput, "must"}}},
+	} {
+		res := lintAlone(root, callerPath, []byte(c.src))
+		files := map[string]string{".github/workflows/callee.yml": cy, ".github/workflows/caller.yml": c.src, ".github/actions/setup-tool@v2/action.yml": act}
+		r.record("twin", files, []string{".github/workflows/caller.yml"}, "", sortReps(c.want), res, "fixed/"+c.name, false)
+	}
+}
+
 func (r *run) reusable(n int) {
 	for k := 0; k < n; k++ {
 		root := filepath.Join(r.out, "scratch", fmt.Sprintf("rw%03d", k))
@@ -1769,6 +1799,7 @@ func main() {
 	r.popular()
 	r.localActions(*nlocal)
 	r.reusable(*nwf)
+	r.fixedCallees()
 	writeLines(filepath.Join(abs, "cases_pop.txt"), r.pop)
 	writeLines(filepath.Join(abs, "cases_local.txt"), r.local)
 	writeLines(filepath.Join(abs, "cases_wf.txt"), r.wf)
